@@ -66,11 +66,11 @@ fn cmd_write(a: &Args) -> i32 {
                 w.into_inner().map_err(|e| e.to_string())
             }));
             let Ok(Ok(file)) = r else { continue };
-            // embedded schema text (found by the harness splitter) parses to the writer schema?
+            // the header must embed exactly the JSON form of the writer schema (what that JSON *means* is
+            // property C10's business: schema -> JSON -> schema)
+            let json_form = serde_json::to_string(&schema).unwrap_or_default();
             let rt = match split_file(&file, &schema, codec) {
-                Ok(sp) => sp.meta.iter().find(|(k, _)| k == b"avro.schema")
-                    .and_then(|(_, v)| std::str::from_utf8(v).ok().map(|t| t.to_string()))
-                    .map(|t| matches!(guarded(|| Schema::parse_str(&t)), Ok(Ok(s2)) if s2 == schema)).unwrap_or(false),
+                Ok(sp) => sp.meta.iter().find(|(k, _)| k == b"avro.schema").map(|(_, v)| v == json_form.as_bytes()).unwrap_or(false),
                 Err(_) => false,
             };
             writeln!(out, "{}", json!({"ev":"written","id":small(id),"s":p["s"],"vals":p["vals"],"codec":cname,"block_size":small(bs),
